@@ -432,7 +432,7 @@ def run(chk: Check):
                 "renamed / repeated / positional / not a Tensor, two arguments exchanged.  A case is distinct by "
                 "(entry, assignment, formats, backend, arguments).")
     chk.trusted += [
-        "hand model coq/model/{ExprAst,Problem,Validate}.v tied to /repo by correspondence only",
+        "hand models coq/model/{ExprAst,Validate}.v tied to /repo by correspondence and by regeneration + equivalence proof (TIE variables, index_participants, validate); Problem.v / make_problem and inspect.Signature.bind by correspondence only",
         "Python dict = association list, Python set = list + arbitrary iteration order (oracle); "
         "inspect.Signature.bind modelled as: keyword-only parameters, names exact",
         "kernel entry observed by replacing TensorMethod._evaluate on the instance (harness c10_run.py)",
